@@ -3792,7 +3792,7 @@ func (e *enterFunc) exec(vm *vm) {
 	ea := 0
 	if e.argsToStash {
 		offset := vm.args - int(e.numArgs)
-		copy(stash.values, vm.stack[sp-vm.args:sp])
+		copy(stash.values[:e.numArgs], vm.stack[sp-vm.args:sp])
 		if offset > 0 {
 			vm.stash.extraArgs = make([]Value, offset)
 			copy(stash.extraArgs, vm.stack[sp-offset:])
